@@ -645,6 +645,11 @@ func (tree *MutableTree) enableFastStorageAndCommit() error {
 // GetImmutable loads an ImmutableTree at a given version for querying. The returned tree is
 // safe for concurrent access, provided the version is not deleted, e.g. via `DeleteVersion()`.
 func (tree *MutableTree) GetImmutable(version int64) (*ImmutableTree, error) {
+	// A version that background pruning has already removed from the range of available
+	// versions still has its root in the store until the pending deletions are flushed.
+	if !tree.VersionExists(version) {
+		return nil, ErrVersionDoesNotExist
+	}
 	rootNodeKey, err := tree.ndb.GetRoot(version)
 	if err != nil {
 		return nil, err
